@@ -30,19 +30,14 @@ def _safe_real(mod, case):
         return {'harness_exc': type(e).__name__ + ': ' + str(e)[:200]}
 
 
-def run_shard(args):
-    prop, cases, use_model = args
-    C.ensure_repo_on_path()
-    mod = load_prop(prop)
-    out = {'n': 0, 'nontrivial': set(), 'mismatch': [], 'violations': [], 'stats': {}, 'precond': 0,
-           'model_errors': 0}
-    reals = []
-    cmds = []
-    spans = []
-    for case in cases:
-        r = _safe_real(mod, case)
-        reals.append(r)
-        cs = mod.model_cmds(case) if use_model else []
+BATCH_CASES = 48          # cases per driver invocation
+BATCH_BYTES = 24 << 20    # … or this many bytes of model commands, whichever comes first
+
+
+def _flush(mod, out, batch, use_model):
+    """run the model on one batch of (case, real, cmds) and judge every case of the batch"""
+    cmds, spans = [], []
+    for _, _, cs in batch:
         spans.append((len(cmds), len(cmds) + len(cs)))
         cmds.extend(cs)
     answers = None
@@ -51,7 +46,7 @@ def run_shard(args):
             answers = C.run_driver(cmds)
         except Exception as e:
             out['driver_error'] = str(e)[:300]
-    for case, r, (a, b) in zip(cases, reals, spans):
+    for (case, r, _), (a, b) in zip(batch, spans):
         out['n'] += 1
         for k in mod.tags(case, r):
             out['stats'][k] = out['stats'].get(k, 0) + 1
@@ -75,21 +70,62 @@ def run_shard(args):
             d = mod.compare(case, r, m)
             if d:
                 out['mismatch'].append((case, r, m, d))
+
+
+def run_shard(args):
+    """one block of cases: real code in-process, model through the driver, in bounded batches so that
+    the memory of a worker does not grow with the size of the block"""
+    prop, cases, use_model = args
+    C.ensure_repo_on_path()
+    mod = load_prop(prop)
+    out = {'n': 0, 'nontrivial': set(), 'mismatch': [], 'violations': [], 'stats': {}, 'precond': 0,
+           'model_errors': 0}
+    batch, size = [], 0
+    for case in cases:
+        r = _safe_real(mod, case)
+        cs = [json.dumps(c, separators=(',', ':')) for c in mod.model_cmds(case)] if use_model else []
+        batch.append((case, r, cs))
+        size += sum(len(c) for c in cs)
+        if len(batch) >= BATCH_CASES or size >= BATCH_BYTES:
+            _flush(mod, out, batch, use_model)
+            batch, size = [], 0
+    if batch:
+        _flush(mod, out, batch, use_model)
     out['nontrivial'] = list(out['nontrivial'])
     return out
 
 
+_BLOCKS = None
+
+
+def _run_block(args):
+    prop, i, use_model = args
+    return run_shard((prop, _BLOCKS[i], use_model))
+
+
 def run_cases(prop, cases, use_model=True):
+    """contiguous blocks (page locality under fork), several per worker (load balance); a worker that dies
+    (e.g. killed by the OOM killer) raises BrokenProcessPool, which the caller reports as exit 2"""
+    global _BLOCKS
+    import concurrent.futures as cf
+    import gc
     n = max(1, min(C.NPROC, len(cases) // 4 or 1))
-    shards = [cases[i::n] for i in range(n)]
-    shards = [s for s in shards if s]
-    if not shards:
+    if not cases:
         return []
-    if len(shards) == 1:
-        return [run_shard((prop, shards[0], use_model))]
+    if n == 1:
+        return [run_shard((prop, cases, use_model))]
+    nb = min(len(cases), n * 6)
+    step = (len(cases) + nb - 1) // nb
+    _BLOCKS = [cases[i:i + step] for i in range(0, len(cases), step)]
+    gc.collect()
+    gc.freeze()
     ctx = mp.get_context('fork')
-    with ctx.Pool(len(shards)) as pool:
-        return pool.map(run_shard, [(prop, s, use_model) for s in shards])
+    try:
+        with cf.ProcessPoolExecutor(max_workers=n, mp_context=ctx) as pool:
+            return list(pool.map(_run_block, [(prop, i, use_model) for i in range(len(_BLOCKS))]))
+    finally:
+        _BLOCKS = None
+        gc.unfreeze()
 
 
 def shrink(mod, case, pred, budget_s=20):
